@@ -81,6 +81,39 @@ def pt(x):
     return [flt(v) for v in _np.asarray(x, dtype=object).ravel()]
 
 
+class Tape:
+    """Records the nondeterministic choices / values of one run and replays them in a second run
+    (used to compare a repeated or nested call with the first one on the same path)."""
+
+    def __init__(self, e):
+        self.e = e
+        self.items = []
+        self.pos = None
+        self.diverged = False
+        self.mode = e.mode
+
+    def rewind(self):
+        self.pos = 0
+
+    def _next(self, kind, make):
+        if self.pos is None:
+            v = make()
+            self.items.append((kind, v))
+            return v
+        if self.pos < len(self.items) and self.items[self.pos][0] == kind:
+            v = self.items[self.pos][1]
+            self.pos += 1
+            return v
+        self.diverged = True
+        return make()
+
+    def choose(self, n, label=None):
+        return self._next(("c", n), lambda: self.e.choose(n, label))
+
+    def fresh_in(self, name, lo=None, hi=None, kinds=(FIN,)):
+        return self._next(("v", name[:1]), lambda: self.e.fresh_in(name, lo, hi, kinds))
+
+
 class Ctl(Harness):
     name = "ctl"
     serves = ("C02", "C03", "C05", "C06", "C07", "C08", "C09", "C20", "C01", "C11", "C12", "C18")
@@ -136,6 +169,10 @@ class Ctl(Harness):
             add("fixnls", 2, 1, cb="kw", npt=2)
             add("nlub", 2, 1, npt=2)
             add("linnl", 2, 1, npt=2)
+            add("unc1", 3, 1, repeat=True)
+            add("box1", 3, 1, cb="pos", repeat=True)
+            add("nlub", 2, 1, npt=2, repeat=True)
+            add("unc1", 3, 1, nested=True)
         else:
             for pb in PROBLEMS:
                 n = PROBLEMS[pb]["n"]
@@ -152,9 +189,11 @@ class Ctl(Harness):
                 return d["cb"] != "none" or d["target"] or not P.get("fun", True)
             if prop == "C01":
                 return P.get("bounds") is not None
+            if d.get("repeat") or d.get("nested"):
+                return prop == "C11"
             if prop in ("C11", "C18", "C12"):
                 return d["pb"] in ("unc1", "box1", "lineq", "box2s", "linub", "fixed1") or \
-                    (d["pb"] in ("nlub", "feas", "boxnls") and d["kinds"] == "fin")
+                    (d["pb"] in ("nlub", "feas") and d["kinds"] == "fin") or (d["pb"] == "boxnls" and prop != "C11")
             return True
         return [d for d in S if keep(d)]
 
@@ -165,7 +204,7 @@ class Ctl(Harness):
         st = ctx.st = dict(faults=0, ill=0, menu=2)
 
         def eng():
-            return core.engine()
+            return getattr(ctx, "tape", None) or core.engine()
 
         def mk(xs):
             return ctx.arr(xs)
@@ -291,7 +330,23 @@ class Ctl(Harness):
 
     # -- the run --------------------------------------------------------------
     def run(self, ctx, shape):
-        e, M, np = ctx.e, ctx.M, ctx.np
+        ctx.tape = None
+        if not (shape.get("repeat") or shape.get("nested")):
+            return self._call(ctx, shape)
+        ctx.tape = Tape(ctx.e)
+        try:
+            first = self._call(ctx, shape)
+            ctx.tape.rewind()
+            second = self._call(ctx, shape, inner=bool(shape.get("nested")))
+            first["second"] = second
+            first["tape_diverged"] = ctx.tape.diverged or ctx.tape.pos != len(ctx.tape.items)
+        finally:
+            ctx.tape = None
+        return first
+
+    def _call(self, ctx, shape, inner=False):
+        M, np = ctx.M, ctx.np
+        e = ctx.tape or ctx.e
         ctx.st.update(faults=shape.get("faults", 0), ill=shape.get("ill", 0), menu=shape.get("menu", 2))
         P = PROBLEMS[shape["pb"]]
         n = P["n"]
@@ -309,7 +364,18 @@ class Ctl(Harness):
         cur = {"depth": 0}
 
         # user functions ---------------------------------------------------
+        innerstate = {"done": False}
+
         def fun(x, *args):
+            if inner and not innerstate["done"]:
+                innerstate["done"] = True
+                # a complete nested call on another problem, with its own (untaped) values
+                saved_tape, ctx.tape = ctx.tape, None
+                try:
+                    M.main.minimize(lambda z: ctx.e.fresh_in("fi", -1e6, 1e6), ctx.arr([0.25, -0.5]),
+                                    options=dict(maxfev=2, nb_points=3))
+                finally:
+                    ctx.tape = saved_tape
             v = val("f")
             log.append(dict(t="fun", x=pt(x), v=v, depth=cur["depth"]))
             return v
@@ -417,6 +483,17 @@ class Ctl(Harness):
                                         radius=self_.radius, rhoend=options_["radius_final"]))
 
         M.patch(TR, "enhance_resolution", enh_wrapper)
+        MDL = M.models.Models
+        orig_upd = MDL.update_interpolation
+
+        def upd_wrapper(self_, k_new, x_new, fun_val, cub_val, ceq_val):
+            last = [r for r in log if r["t"] == "leave" and r["depth"] == 1 and "ret" in r]
+            lastx = [r for r in log if r["t"] == "enter" and r["depth"] == 1]
+            monitors["upd"].append(dict(kind="interp", x=pt(x_new), f=fun_val, cub=list(cub_val), ceq=list(ceq_val),
+                                        ev_x=lastx[-1]["x"] if lastx else None, ev_ret=last[-1]["ret"] if last else None))
+            return orig_upd(self_, k_new, x_new, fun_val, cub_val, ceq_val)
+
+        M.patch(MDL, "update_interpolation", upd_wrapper)
         orig_build = M.main._build_result
         final = {}
 
@@ -454,7 +531,7 @@ class Ctl(Harness):
         finally:
             for obj, nm, orig in ((Pb, "__call__", orig_call), (TR, "get_trust_region_step", orig_step),
                                   (TR, "enhance_resolution", orig_enh), (M.main, "_build_result", orig_build),
-                                  (TR, "__init__", orig_tr_init)):
+                                  (TR, "__init__", orig_tr_init), (MDL, "update_interpolation", orig_upd)):
                 setattr(obj, nm, orig)
         if frame.get("tr") is not None:
             tr = frame["tr"]
@@ -727,8 +804,33 @@ class Ctl(Harness):
                 C("C18", "resolution_never_increases", lift(it["resolution"]) <= prev_res)
             prev_res = it["resolution"]
         for u in o["monitors"]["upd"]:
+            if u["kind"] == "interp":
+                goals.append("interpolation_update")
+                ok = u["ev_x"] is not None and u["ev_ret"] is not None and len(u["ev_x"]) == len(u["x"]) and \
+                    all(abs(a - c) <= 1e-12 * max(1.0, abs(c)) for a, c in zip(u["x"], u["ev_x"]))
+                C("C12", "value_recorded_for_a_point_was_returned_by_the_evaluation_of_that_point",
+                  b_and(ok, same_value(u["f"], u["ev_ret"][0]) if ok else False,
+                        all_of(same_value(a, c) for a, c in zip(u["cub"], u["ev_ret"][1])) if ok else False,
+                        all_of(same_value(a, c) for a, c in zip(u["ceq"], u["ev_ret"][2])) if ok else False))
+                continue
             C("C18", "enhance_resolution_decreases_and_stays_above_final",
               b_and(lift(u["after"]) < u["before"], lift(u["after"]) >= u["rhoend"], lift(u["radius"]) >= u["after"]))
+        # ---- C11 repeated / nested call gives the same run --------------------------------------
+        if "second" in o:
+            o2 = o["second"]
+            goals.append("nested_call" if shape.get("nested") else "repeated_call")
+            tag = "nested" if shape.get("nested") else "repeated"
+            C("C11", f"{tag}_call_consumes_the_same_values_and_choices", not o.get("tape_diverged"))
+            r2 = o2.get("res")
+            C("C11", f"{tag}_call_returns", r2 is not None)
+            if r2 is not None:
+                ev2, out2 = self.evaluations(shape, o2)
+                same_pts = len(ev2) == N and all(a["x_int"] == b_["x_int"] for a, b_ in zip(evs, ev2))
+                C("C11", f"{tag}_call_evaluates_the_same_points", same_pts)
+                C("C11", f"{tag}_call_gives_identical_result",
+                  b_and(r2.status == res.status, r2.nfev == res.nfev, r2.nit == res.nit, pt(r2.x) == rx,
+                        same_value(r2.fun, res.fun), same_value(r2.maxcv, res.maxcv),
+                        r2.message == res.message))
         # ---- C11 arguments untouched ------------------------------------------------------
         C("C11", "x0_untouched", pt(o["x0"]) == o["saved"]["x0"])
         C("C11", "options_dict_untouched",
@@ -770,6 +872,10 @@ class Ctl(Harness):
             g += ["callback_stopped", "status_1", "status_4"]
         if prop == "C20":
             g += ["callback_stopped"]
+        if prop == "C11":
+            g += ["repeated_call", "nested_call"]
+        if prop == "C12":
+            g += ["interpolation_update"]
         return g
 
     def digest(self, ctx, shape, o):
